@@ -158,6 +158,15 @@ func Lang(label string) language.Tag {
 		case "Und":
 			return language.Und
 		default:
+			name := str(v)
+			if sv, ok := get(label + ".str"); ok {
+				name = str(sv)
+			}
+			if len(name) > 4 && name[:4] == "tag:" {
+				if t, err := language.Parse(name[4:]); err == nil {
+					return t
+				}
+			}
 			return language.French
 		}
 	}
